@@ -1,14 +1,14 @@
 SPECIFICATION GenSpec
 CONSTANTS
-  Peers <- P2
-  PeerSeq <- PS2
+  Peers <- P3
+  PeerSeq <- PS3
   Trees <- T2
   Acl <- AclS
-  Kv <- KvS
+  Kv <- None
   Changes <- C2
   MaxPend = 3
   Dev <- None
-  Budget <- Bg
-  GenDepth = 40
+  Budget <- Bg3
+  GenDepth = 50
 INVARIANT Emit
 CHECK_DEADLOCK FALSE
